@@ -83,7 +83,11 @@ def declared(rule, arith):
 
 
 def header_list(report, label):
+    "the names listed under a header line; found by its label, or (should the label be reworded) by its key word"
     m = re.search(r'^\t%s: (.*)$' % re.escape(label), report, re.M)
+    if m is None:
+        word = label.split()[0].lower()[1:]        # 'nused' / 'verridden'
+        m = re.search(r'^\t[^:\n]*%s[^:\n]*: (.*)$' % re.escape(word), report, re.M | re.I)
     return None if m is None else m.group(1).split(', ')
 
 
